@@ -238,10 +238,11 @@ func (s *sched) spawn(body func()) {
 	t.child = true
 	if s.cur != nil {
 		t.root = s.cur.root
-		t.prio = s.cur.prio
 		rt := s.tasks[t.root]
 		rt.nspawned++
 		t.ordinal = rt.nspawned
+		// (PCT) a priority of its own: a goroutine may run far ahead of its siblings or lag far behind
+		t.prio = int(splitmix(s.pol.Seed^uint64(s.cur.prio)*0x9E3779B97F4A7C15^uint64(t.ordinal)*0xC2B2AE3D27D4EB4F) % 1000)
 	}
 	s.idle = 0
 	s.spawned++
@@ -273,6 +274,13 @@ func (s *sched) run() {
 func newAmbient(c *Ctx) *sched {
 	seed := splitmix(uint64(c.ev) ^ uint64(c.Steps)*0x9E3779B97F4A7C15 ^ 0x5eed)
 	pol := &schedPolicy{Kind: 2, Seed: seed, PerMille: []int{0, 5, 60, 250, 600}[int(seed>>40)%5]}
+	if int(seed>>20)%3 == 0 {
+		// PCT: strict priorities, the running task drops to the lowest at a few change points
+		pol = &schedPolicy{Kind: 1, Seed: seed, Prio: []int{int(seed>>8) % 1000}}
+		for i, d := 0, int(seed>>12)%4; i < d; i++ {
+			pol.Change = append(pol.Change, int(splitmix(seed+uint64(i))%3000))
+		}
+	}
 	s := newSched(c, pol)
 	s.ambient = true
 	t := s.add(nil)
